@@ -147,6 +147,8 @@ def run_in_fresh_loop(coro_fn: Any, debug_log: bool = False) -> Any:
     BaseTaskPool._pools.clear()
     loop = asyncio.new_event_loop()
     loop.set_exception_handler(lambda l, c: None)
+    from ..common import deterministic_tasks
+    deterministic_tasks(loop, 0)       # sets of tasks iterate in creation order mixed with a constant, not in address order
     out, err = io.StringIO(), io.StringIO()
     result, error = None, None
     old_out, old_err = sys.stdout, sys.stderr
